@@ -215,9 +215,17 @@ func runC20(r *Run) {
 			}
 		}
 		if p.ping && p.closeRead && !p.pair {
+			if p.writes%2 == 1 {
+				// pongs nobody asked for, before and after the ping
+				peer.Send(wsref.Frame{Fin: true, Opcode: wsref.OpPong, Payload: []byte("x")}, wsref.Frame{Fin: true, Opcode: wsref.OpPong, Payload: []byte("1")})
+				r.S.Count("probe.unsolicited-pongs-in-history")
+			}
 			ctx, cancel := context.WithTimeout(bg, 10*time.Second)
 			c.Ping(ctx)
 			cancel()
+			if p.writes%2 == 1 {
+				peer.Send(wsref.Frame{Fin: true, Opcode: wsref.OpPong, Payload: []byte("1")})
+			}
 		}
 		if p.abWriter {
 			w, err := c.Writer(bg, websocket.MessageBinary)
